@@ -52,6 +52,13 @@ the same 64 bytes -/
 theorem only_value_error_peFindMagicPe (f : PyFile) : NeverRaises (peFindMagicPe f) :=
   findMagicPe_ok f (some 0) MAXRANGE
 
+/-- the PE helpers for EVERY `start_offset` (explicit or `None` = current position) and every `maxrange`, not only the
+defaults the entry points above use -/
+theorem only_value_error_pe_anyStart (f : PyFile) (start : Option Nat) (maxrange : Nat) :
+    NeverRaises (C18.findCompileStamps f start maxrange).1 ∧ NeverRaises (C18.findMagicPe f start maxrange).1 ∧
+    NeverRaises (C18.findStagePrependAppend f start maxrange).1 :=
+  ⟨findCompileStamps_ok f start maxrange, findMagicPe_ok f start maxrange, findStagePrependAppend_ok f start maxrange⟩
+
 /-- `find_stage_prepend_append` on a file object whose `seek` accepts every non-negative offset (the `PyFile` model;
 io.BytesIO up to 2^63): `fh.seek(mz_offset + SizeOfHeaders + Σ SizeOfRawData)` is a sum of unsigned fields, far beyond
 the end of the data is allowed (the read returns `b""`).  For file objects with a largest offset see `…_full` below. -/
@@ -116,6 +123,12 @@ theorem prependAppendAtG_is_C18 (guarded : Bool) (f : PyFile) (o : Nat) :
 /-- `XorEncodedFile.from_file`: a view, or the documented ValueError -/
 theorem only_value_error_xorEncodedFromFile (B : Nat) (f : PyFile) : OkOrValueError (xorEncodedFromFile B f) :=
   okOrValueError_of_error _ (xorEncodedFromFile_error B f)
+
+/-- the Guardrails fallback inside `from_file` (marker scan over the whole file, guard-settings loop, key recovery):
+the first record with a recovered configuration, or the documented ValueError — for every content and file kind
+(negative seek from a marker in the first 6138 bytes and EOFError of an unterminated guard configuration are dead) -/
+theorem only_value_error_guardrailsFallback (B : Nat) (f : PyFile) : OkOrValueError (C17.fromFileFallback f B) :=
+  okOrValueError_of_error _ (fun e h => C17.fallback_errors_only_valueError f B e h)
 
 /-- `BeaconConfig.from_file(fobj, xor_keys, all_xor_keys)` for every content, file kind, initial position, key list and
 both values of `all_xor_keys`: a `BeaconConfig`, or the documented ValueError -/
@@ -283,6 +296,32 @@ theorem detector_candidates_bound (f : PyFile) (maxrange : Nat) (hits l : List N
     simp only [C09.iterNonceOffsets, PyFile.seekEnd] at h
     rw [C09.seekRel_ok f f.data.length 0 f.data.length (by omega)] at h
     exact nonceLoop_length _ _ _ _ _ _ h
+  omega
+
+/-- **step bound of the XorEncoded detector** (`XorEncodedFile.from_file`, run up to three times per `from_file`): the
+candidate loop tries at most `|data| + 1024` nonce offsets — one per `ff ff ff` occurrence reported by the marker scan
+(at most one per byte of the file) and one per size-consistent offset below `maxrange = 1024` — and each candidate costs
+one `find_mz_offset` on the view, a structural recursion over `range(1024)` (`C09.mzLoop`, counter `k = maxrange`) with
+two bounded struct reads per step.  Hence at most `(|data| + 1024) · 1024` loop iterations per detector run. -/
+theorem detector_step_bound (B : Nat) (hB : 1 ≤ B) (f : PyFile) (offs : List Nat) (f1 : PyFile) (hits : List Int) (f2 : PyFile)
+    (h1 : C09.iterNonceOffsets f none 1024 = .ok (offs, f1))
+    (h2 : C15.iterFindNeedle B f1 [0xff, 0xff, 0xff] (some 0) 1024 = .ok (hits, f2)) :
+    (C09.candidates (hits.map Int.toNat) offs).length ≤ f.data.length + 1024 := by
+  have hc := detector_candidates_bound f 1024 (hits.map Int.toNat) offs f1 h1
+  obtain ⟨l', f1', h1', hd1, _⟩ := C09.iterNonceOffsets_ok f 1024
+  rw [h1] at h1'
+  injection h1' with h1'
+  have hf1 : f1 = f1' := (Prod.mk.inj h1').2
+  subst hf1
+  have hsub := C15.needle_limit_sublist B hB f1 [0xff, 0xff, 0xff] (by decide) (some 0) 1024 hits f2 h2
+  have hlen := hsub.length_le
+  simp only [List.length_map] at hlen hc
+  have hocc : ((C15.occ f1.data [0xff, 0xff, 0xff]).filter (fun i => C15.startPos f1 (some 0) ≤ i)).length ≤ f1.data.length := by
+    refine Nat.le_trans (List.length_filter_le _ _) ?_
+    unfold C15.occ
+    refine Nat.le_trans (List.length_filter_le _ _) ?_
+    simp
+  have hl : f1.data.length = f.data.length := by rw [hd1]
   omega
 
 /-- settings decoding consumes at least 6 bytes per setting: at most `|block| / 6` settings (C02 `parse_sound` gives the
